@@ -83,6 +83,7 @@ Definition e_guard (e : epcT) : Z := match e with EChk | EGetCb | ECas | EWgAdd 
 Definition e_clr (e : epcT) : Z := match e with EClrP | EClrR => 1 | _ => 0 end.
 Definition e_halfn (e : epcT) : Z := match e with EHalfN => 1 | _ => 0 end.
 Definition e_half (e : epcT) : Z := match e with EHalf => 1 | _ => 0 end.
+Definition s_store (p : spcT) : Z := match p with SStore => 1 | _ => 0 end.
 
 Fixpoint ncl (l : list ev) : Z := match l with [] => 0 | EClose :: t => 1 + ncl t | _ :: t => ncl t end.
 Lemma ncl_app a b : ncl (a ++ b) = ncl a + ncl b.
@@ -159,7 +160,7 @@ Ltac cb := cbn [step estep gstep clstep sstep ustep cstep setg clear_pending mov
   set_gors set_clos set_spc set_users set_script set_processed set_arrived set_chunks set_consumed set_offers
   set_nlocal set_nremote set_out set_khalf set_lhalf set_casfail
   b2z nz c_athalf c_needcl c_pendcb c_send c_cleanT c_ret c_casbad gl g_own g_re g_act g_run g_cb g_exit
-  e_proxy e_guard e_clr e_halfn e_half upc utodo ures negb cz ncl] in *.
+  e_proxy e_guard e_clr e_halfn e_half s_store upc utodo ures negb cz ncl] in *.
 
 Ltac cases s w :=
   destruct w as [|i|i| |i]; cbn [step];
@@ -201,7 +202,7 @@ Ltac zeqh := repeat match goal with
 
 Lemma b2z_range b : 0 <= b2z b <= 1.
 Proof. destruct b; simpl; lia. Qed.
-Lemma e_range e : 0 <= e_proxy e <= 1 /\ 0 <= e_guard e <= 1 /\ 0 <= e_clr e <= 1 /\ 0 <= e_halfn e <= 1 /\ 0 <= e_half e <= 1.
+Lemma e_range e : 0 <= e_proxy e <= 1 /\ 0 <= e_guard e <= 1 /\ 0 <= e_clr e <= 1 /\ 0 <= e_halfn e <= 1 /\ 0 <= e_half e <= 1 /\ e_proxy e <= e_guard e.
 Proof. destruct e; simpl; lia. Qed.
 Ltac czpos s :=
   pose proof (b2z_range (lhalf s)); pose proof (b2z_range (khalf s)); pose proof (b2z_range (casfail s));
@@ -318,4 +319,391 @@ Lemma stepL s w : InvP s -> InvL s -> InvL (step s w).
 Proof.
   intros [P1 P2 P3 P4 P5 P6 P7] [H1 H2 H3]. clear P4 P5 P7.
   cases s w; brk; constructor; finL.
+Qed.
+
+(* ====================================================================================================
+   Callback-mode invariant (callbacks installed before the first event): the hand-off of
+   callbackInProcess between the event loop and the callback goroutines
+   ==================================================================================================== *)
+Record InvC (s : est) : Prop := {
+  c_cb : cbset s = true;
+  c_spc : s_store (spc s) = 0;
+  (* the flag is exactly the number of owners: goroutines between winning it and clearing it, or the
+     event loop between winning it and the spawn *)
+  c_flag : inproc s = cz g_own (gors s) + e_proxy (epc s);
+  c_01 : inproc s = 0 \/ inproc s = 1;
+  (* no stranding: unmoved pending data always has a guardian *)
+  c_P : nz (pending s) = 0 \/ cstate s <> 0 \/ e_guard (epc s) = 1 \/ cz g_own (gors s) + cz g_re (gors s) > 0;
+  (* unread bytes in recvBuf of an open stream always have an owner that will still offer them *)
+  c_Q : st s = c_streamOpened -> nz (recv s) = 0 \/ cz g_act (gors s) > 0 }.
+
+Lemma stepC s w : InvC s -> InvC (step s w).
+Proof.
+  intros [H1 H2 H3 H4 H5 H6]. cases s w; brk; constructor; fin s.
+Qed.
+
+(* ====================================================================================================
+   Every reachable state
+   ==================================================================================================== *)
+Ltac initc := intros; constructor; cbn; rewrite ?cz_repeat_false by reflexivity; uc; cbn; try lia; auto.
+
+Lemma initP cb0 inb n scr ups : InvP (init cb0 inb n scr ups).
+Proof. initc. Qed.
+Lemma initA cb0 inb n scr ups : InvA (init cb0 inb n scr ups).
+Proof. initc. Qed.
+Lemma initT cb0 inb n scr ups : InvT (init cb0 inb n scr ups).
+Proof. initc. Qed.
+Lemma initL cb0 inb n scr ups : InvL (init cb0 inb n scr ups).
+Proof. initc. Qed.
+Lemma initC inb n scr ups : InvC (init true inb n scr ups).
+Proof. initc. Qed.
+
+Record InvAll (s : est) : Prop := { a_P : InvP s; a_A : InvA s; a_T : InvT s; a_L : InvL s }.
+
+Lemma stepAll s w : InvAll s -> InvAll (step s w).
+Proof.
+  intros [HP HA HT HL]. constructor;
+  [apply stepP; auto | apply stepA; auto | apply stepT; auto | apply stepL; auto].
+Qed.
+Lemma runAll sched s : InvAll s -> InvAll (run sched s).
+Proof. revert s; induction sched as [|w l IH]; simpl; intros s H; auto. apply IH, stepAll, H. Qed.
+Lemma runC sched s : InvC s -> InvC (run sched s).
+Proof. revert s; induction sched as [|w l IH]; simpl; intros s H; auto. apply IH, stepC, H. Qed.
+Lemma initAll cb0 inb n scr ups : InvAll (init cb0 inb n scr ups).
+Proof. constructor; [apply initP|apply initA|apply initT|apply initL]. Qed.
+
+(* ---------- list/count helpers for the statements ---------- *)
+Lemma cz_all_false {A} (f : A -> bool) l : (forall i x, nth_error l i = Some x -> f x = false) -> cz f l = 0.
+Proof.
+  induction l as [|a l IH]; intros H; simpl; auto.
+  rewrite (H 0%nat a eq_refl). rewrite IH; auto. intros i x Hx. apply (H (S i) x Hx).
+Qed.
+Lemma cz_le {A} (f g : A -> bool) l : (forall x, f x = true -> g x = true) -> cz f l <= cz g l.
+Proof.
+  intros H. induction l as [|a l IH]; simpl; [lia|].
+  destruct (f a) eqn:E; [rewrite (H a E); lia|destruct (g a); lia].
+Qed.
+Lemma cz_two {A} (f : A -> bool) l i j x y :
+  nth_error l i = Some x -> nth_error l j = Some y -> f x = true -> f y = true -> i <> j -> 2 <= cz f l.
+Proof.
+  revert i j; induction l as [|a l IH]; intros [|i] [|j] Hi Hj Fx Fy Hne; simpl in *; try discriminate; try congruence.
+  - inversion Hi; subst. rewrite Fx. pose proof (cz_pos_in f l j y Hj Fy). lia.
+  - inversion Hj; subst. rewrite Fy. pose proof (cz_pos_in f l i x Hi Fx). lia.
+  - assert (2 <= cz f l) by (eapply (IH i j); eauto). destruct (f a); lia.
+Qed.
+Lemma nz_nil {A} (l : list A) : nz l = 0 -> l = [].
+Proof. destruct l; simpl; [auto|lia]. Qed.
+Lemma movedof_all ch : forallb fst ch = true -> movedof ch = concat (map snd ch).
+Proof.
+  unfold movedof. induction ch as [|[b x] ch IH]; simpl; auto.
+  intros H. apply andb_prop in H. destruct H as [Hb Hr]. simpl in Hb. subst b. simpl. rewrite IH; auto.
+Qed.
+
+(* ====================================================================================================
+   C20
+   ==================================================================================================== *)
+Section C20.
+Variables (inb : list ev) (ncl : nat) (scr : list (nat * bool)) (ups : list (list (list Z))).
+Let s0 := init true inb ncl scr ups.
+
+(* OnData never overlaps itself: at most one thread owns callbackInProcess, and only owners run OnData *)
+Theorem serial sched :
+  let s := run sched s0 in
+  cz g_own (gors s) + e_proxy (epc s) <= 1 /\ cz g_run (gors s) <= 1 /\
+  (forall i j gi gj, nth_error (gors s) i = Some gi -> nth_error (gors s) j = Some gj ->
+                     g_own gi = true -> g_own gj = true -> i = j).
+Proof.
+  intros s. pose proof (runC sched s0 (initC inb ncl scr ups)) as H. fold s in H.
+  destruct H as [_ _ Hf H01 _ _].
+  assert (Ho : cz g_own (gors s) + e_proxy (epc s) <= 1) by lia.
+  pose proof (e_range (epc s)) as He.
+  split; [exact Ho|split].
+  - assert (cz g_run (gors s) <= cz g_own (gors s)) by (apply cz_le; intros [] E; simpl in *; congruence). lia.
+  - intros i j gi gj Hi Hj Gi Gj. destruct (Nat.eq_dec i j) as [|Hne]; auto.
+    pose proof (cz_two g_own (gors s) i j gi gj Hi Hj Gi Gj Hne). lia.
+Qed.
+
+(* no stranding *)
+Theorem no_strand sched :
+  let s := run sched s0 in
+  pending s <> [] -> st s = c_streamOpened -> cstate s = 0 ->
+  (forall i g, nth_error (gors s) i = Some g -> g_own g = false) ->
+  (epc s = EChk \/ epc s = EGetCb \/ epc s = ECas \/ epc s = EWgAdd \/ epc s = ESpawn) \/
+  (exists i g, nth_error (gors s) i = Some g /\ g_re g = true).
+Proof.
+  intros s Hp Hst Hcs Hno.
+  pose proof (runC sched s0 (initC inb ncl scr ups)) as H. fold s in H.
+  pose proof (runAll sched s0 (initAll true inb ncl scr ups)) as HA. fold s in HA.
+  destruct H as [_ _ _ _ HP _]. destruct HA as [[HE _ _ _ _ _ _] _ _ _].
+  assert (Ho : cz g_own (gors s) = 0) by (apply cz_all_false; exact Hno).
+  assert (Hnz : nz (pending s) <> 0) by (destruct (pending s); simpl; [congruence|lia]).
+  destruct HP as [HP|[HP|[HP|HP]]]; try congruence.
+  - left. assert (Hc : e_clr (epc s) = 0) by (apply HE; uc; lia).
+    destruct (epc s); simpl in *; auto; try lia.
+  - right. apply cz_exists. lia.
+Qed.
+
+(* at quiescence with the stream open and no Close() issued, everything that arrived was consumed by OnData *)
+Theorem quiescent sched :
+  let s := run sched s0 in
+  epc s = EIdle -> (forall i g, nth_error (gors s) i = Some g -> g = GExit) ->
+  st s = c_streamOpened -> cstate s = 0 ->
+  pending s = [] /\ recv s = [] /\ consumed s = arrived s.
+Proof.
+  intros s He Hg Hst Hcs.
+  pose proof (runC sched s0 (initC inb ncl scr ups)) as H. fold s in H.
+  pose proof (runAll sched s0 (initAll true inb ncl scr ups)) as HA. fold s in HA.
+  destruct H as [_ _ _ _ HP HQ]. destruct HA as [_ _ _ [LA LB LC]].
+  assert (Ho : cz g_own (gors s) = 0) by (apply cz_all_false; intros i g Hi; rewrite (Hg i g Hi); reflexivity).
+  assert (Hr : cz g_re (gors s) = 0) by (apply cz_all_false; intros i g Hi; rewrite (Hg i g Hi); reflexivity).
+  assert (Ha : cz g_act (gors s) = 0) by (apply cz_all_false; intros i g Hi; rewrite (Hg i g Hi); reflexivity).
+  rewrite He in HP. simpl in HP.
+  assert (Hp : pending s = []) by (apply nz_nil; lia).
+  assert (Hrv : recv s = []) by (apply nz_nil; specialize (HQ Hst); lia).
+  repeat split; auto.
+  assert (Hnc : st s <> c_streamClosed) by (uc; lia).
+  specialize (LB Hnc). specialize (LC Hnc).
+  rewrite LA, Hp. simpl. rewrite app_nil_r. rewrite <- (movedof_all _ LB), LC, Hrv, app_nil_r. reflexivity.
+Qed.
+End C20.
+
+(* order / exactly once (any callback mode): what arrived is the in-order concatenation of the chunks taken
+   out of pending plus what is still pending; what reached recvBuf is the sub-sequence of moved chunks; until
+   the stream is closed nothing is dropped and every arrived byte is, once and in order, consumed by OnData,
+   readable in recvBuf, or pending *)
+Theorem order_once cb0 inb ncl scr ups sched :
+  let s := run sched (init cb0 inb ncl scr ups) in
+  arrived s = concat (map snd (chunks s)) ++ concat (pending s) /\
+  moved s = concat (map snd (filter fst (chunks s))) /\
+  (st s <> c_streamClosed -> arrived s = consumed s ++ recv s ++ concat (pending s)).
+Proof.
+  intros s. pose proof (runAll sched _ (initAll cb0 inb ncl scr ups)) as HA. fold s in HA.
+  destruct HA as [_ _ _ [LA LB LC]]. repeat split; auto.
+  intros Hnc. rewrite LA. rewrite <- (movedof_all _ (LB Hnc)), (LC Hnc), app_assoc. reflexivity.
+Qed.
+
+(* offering stops: once the state has left `opened`, the only OnData that can still begin is the one
+   whose IsOpen() check had already passed *)
+Definition olen (s : est) : Z := Z.of_nat (length (offers s)).
+Lemma stop_step s w : st s <> c_streamOpened ->
+  olen (step s w) + cz g_cb (gors (step s w)) <= olen s + cz g_cb (gors s).
+Proof.
+  intros Hst. unfold olen. cases s w; brk; cb; rw_cnt; rewrite ?app_length, ?Nat2Z.inj_add; cbn [length]; cb;
+    try lia; try congruence.
+Qed.
+Theorem stop cb0 inb ncl scr ups sched sched' :
+  let s := run sched (init cb0 inb ncl scr ups) in
+  st s <> c_streamOpened ->
+  let s' := run sched' s in
+  st s' <> c_streamOpened /\ olen s' + cz g_cb (gors s') <= olen s + cz g_cb (gors s).
+Proof.
+  intros s Hst. generalize dependent s. intros s. clear. revert s.
+  induction sched' as [|w l IH]; intros s Hst; simpl; [split; [auto|lia]|].
+  assert (Hst' : st (step s w) <> c_streamOpened).
+  { pose proof (step_mono s w) as Hm. unfold mono in Hm. uc. lia. }
+  destruct (IH (step s w) Hst') as [H1 H2]. split; auto.
+  pose proof (stop_step s w Hst). fold (run l (step s w)) in *. lia.
+Qed.
+
+(* ====================================================================================================
+   C10
+   ==================================================================================================== *)
+(* OnRemoteClose is only reported for a close notification that was taken from the inbox *)
+Record InvR (s : est) : Prop := {
+  r_rem : nremote s + e_halfn (epc s) + e_half (epc s) <= ncl (processed s) }.
+Lemma stepR s w : InvR s -> InvR (step s w).
+Proof. intros [H1]. cases s w; brk; constructor; first [solve [fin s] | destruct e; fin s]. Qed.
+Lemma initR cb0 inb n scr ups : InvR (init cb0 inb n scr ups).
+Proof. initc. Qed.
+Lemma runR sched s : InvR s -> InvR (run sched s).
+Proof. revert s; induction sched as [|w l IH]; simpl; intros s H; auto. apply IH, stepR, H. Qed.
+
+Definition quiesc (s : est) : Prop :=
+  epc s = EIdle /\ inbox s = [] /\ (forall i g, nth_error (gors s) i = Some g -> g = GExit) /\
+  (forall i c, nth_error (clos s) i = Some c -> c = KRet \/ c = KStart).
+(* some Close() has returned: a closer thread's, or one that took the half-close branch (the only way
+   a Close() issued inside OnData returns) *)
+Definition close_returned (s : est) : Prop := (exists i, nth_error (clos s) i = Some KRet) \/ khalf s = true.
+Definition closed_ok (s : est) : Prop :=
+  st s = c_streamClosed /\ intable s = false /\ flush_res s = RErrStreamClosed /\ read_res s <> RBlocked /\
+  nlocal s + nremote s = 1 /\
+  ((nremote s = 1 /\ ncl (out s) = 0) \/ (nlocal s = 1 /\ ncl (out s) = 1)).
+
+Lemma read_not_blocked s : st s <> c_streamOpened -> read_res s <> RBlocked.
+Proof.
+  intros H. unfold read_res. destruct (recv s ++ concat (pending s)); [|discriminate].
+  destruct (Z.eqb_spec (st s) c_streamOpened); [congruence|discriminate].
+Qed.
+Lemma flush_closed s : st s <> c_streamOpened -> flush_res s = RErrStreamClosed.
+Proof. intros H. unfold flush_res. destruct (Z.eqb_spec (st s) c_streamOpened); [congruence|reflexivity]. Qed.
+
+Lemma partial_inv s :
+  InvAll s -> khalf s = false -> casfail s = false -> quiesc s -> close_returned s -> closed_ok s.
+Proof.
+  intros HA Hk Hc [He [_ [Hg Hcl]]] Hret.
+  destruct HA as [_ [Hacc [Hn1 Hn2] Hlh _ Hsent] [Htbl _ Hret2 _] _].
+  destruct Hret as [[i Hi]|Hret]; [|congruence].
+  pose proof (cz_pos_in c_ret (clos s) i KRet Hi eq_refl) as Hpos.
+  rewrite Hk, Hc in *. cbn [b2z] in *.
+  assert (Hst : st s = c_streamClosed) by lia.
+  assert (G0 : forall f, f GExit = false -> cz f (gors s) = 0).
+  { intros f Hf. apply cz_all_false. intros j g Hj. rewrite (Hg j g Hj). exact Hf. }
+  assert (C0 : forall f, f KRet = false -> f KStart = false -> cz f (clos s) = 0).
+  { intros f H1 H2. apply cz_all_false. intros j c Hj. destruct (Hcl j c Hj) as [->| ->]; auto. }
+  rewrite (G0 (gl c_pendcb)), (C0 c_pendcb), He in Hacc by reflexivity.
+  rewrite (G0 (gl c_send)), (C0 c_send) in Hsent by reflexivity.
+  specialize (Htbl Hst). rewrite (G0 (gl c_cleanT)), (C0 c_cleanT) in Htbl by reflexivity.
+  pose proof (b2z_range (lhalf s)) as Hr.
+  assert (Hne : st s <> c_streamOpened) by (uc; lia).
+  destruct (Z.eqb_spec (st s) c_streamOpened); [congruence|]. cbn [e_halfn] in Hacc.
+  unfold closed_ok. split; [exact Hst|]. split.
+  { destruct (intable s); simpl in Htbl; [lia|reflexivity]. }
+  split; [apply flush_closed; auto|]. split; [apply read_not_blocked; auto|].
+  pose proof (ncl_nonneg (out s)). lia.
+Qed.
+
+Section C10.
+Variables (cb0 : bool) (inb : list ev) (ncl_ : nat) (scr : list (nat * bool)) (ups : list (list (list Z))).
+Let s0 := init cb0 inb ncl_ scr ups.
+
+Theorem monotone sched sched' :
+  let s := run sched s0 in let s' := run sched' s in
+  (st s = c_streamOpened \/ st s = c_streamHalfClosed \/ st s = c_streamClosed) /\
+  (st s = c_streamClosed -> st s' = c_streamClosed) /\
+  (st s = c_streamHalfClosed -> st s' = c_streamHalfClosed \/ st s' = c_streamClosed).
+Proof.
+  intros s s'. pose proof (runAll sched s0 (initAll _ _ _ _ _)) as HA. fold s in HA.
+  destruct HA as [[_ _ _ _ _ Hst _] _ _ _].
+  pose proof (run_mono sched' s) as Hm. fold s' in Hm. unfold mono in Hm. uc. lia.
+Qed.
+
+Theorem callbacks_at_most_once sched :
+  let s := run sched s0 in
+  0 <= nlocal s /\ 0 <= nremote s /\ nlocal s + nremote s <= 1 /\
+  (st s = c_streamOpened -> nlocal s + nremote s = 0) /\ ncl (out s) <= nlocal s.
+Proof.
+  intros s. pose proof (runAll sched s0 (initAll _ _ _ _ _)) as HA. fold s in HA.
+  destruct HA as [_ [Hacc [Hn1 Hn2] Hlh _ Hsent] _ _]. czpos s.
+  destruct (Z.eqb_spec (st s) c_streamOpened); uc; repeat split; try lia.
+Qed.
+
+Theorem final_flush sched i :
+  let s := run sched s0 in
+  nth_error (clos s) i = Some KRet ->
+  st s <> c_streamOpened /\ flush_res s = RErrStreamClosed /\ read_res s <> RBlocked.
+Proof.
+  intros s Hi. pose proof (runAll sched s0 (initAll _ _ _ _ _)) as HA. fold s in HA.
+  destruct HA as [_ _ [_ Hret _ _] _].
+  assert (Hst : st s <> c_streamOpened).
+  { intros E. specialize (Hret E). pose proof (cz_pos_in c_ret (clos s) i KRet Hi eq_refl). lia. }
+  split; [auto|split; [apply flush_closed|apply read_not_blocked]]; auto.
+Qed.
+
+Theorem peer sched :
+  let s := run sched s0 in
+  ncl (processed s) > 0 -> epc s <> EHalf ->
+  st s <> c_streamOpened /\ flush_res s = RErrStreamClosed /\ read_res s <> RBlocked /\
+  (recv s ++ concat (pending s) = [] -> read_res s = REndOfStream).
+Proof.
+  intros s Hp He. pose proof (runAll sched s0 (initAll _ _ _ _ _)) as HA. fold s in HA.
+  destruct HA as [_ _ [_ _ _ Hpeer] _].
+  assert (Hst : st s <> c_streamOpened).
+  { destruct (Hpeer Hp) as [H|H]; auto. destruct (epc s); simpl in H; try lia. congruence. }
+  repeat split; auto; [apply flush_closed|apply read_not_blocked|]; auto.
+  intros Hn. unfold read_res. rewrite Hn. destruct (Z.eqb_spec (st s) c_streamOpened); [congruence|reflexivity].
+Qed.
+
+Theorem partial sched :
+  let s := run sched s0 in
+  khalf s = false -> casfail s = false -> quiesc s -> close_returned s -> closed_ok s.
+Proof. intros s. apply partial_inv. apply (runAll sched s0 (initAll _ _ _ _ _)). Qed.
+End C10.
+
+(* the full statement and its refutation *)
+Definition C10_full_stmt : Prop := forall cb0 inb ncl_ scr ups sched,
+  let s := run sched (init cb0 inb ncl_ scr ups) in quiesc s -> close_returned s -> closed_ok s.
+
+(* ---------- two ends ---------- *)
+Lemma step_io s w :
+  (exists d, out (step s w) = out s ++ d) /\ processed (step s w) ++ inbox (step s w) = processed s ++ inbox s.
+Proof.
+  cases s w; brk; cb; rw_eqs; split;
+    try (exists []; rewrite app_nil_r; reflexivity); try (eexists; reflexivity); try reflexivity;
+    try (rewrite <- app_assoc; reflexivity); try (rewrite Ei; reflexivity).
+Qed.
+Lemma newout_app (e e' : est) d : out e' = out e ++ d -> newout e e' = d.
+Proof.
+  intros H. unfold newout. rewrite H. rewrite skipn_app, skipn_all, Nat.sub_diag. reflexivity.
+Qed.
+
+Lemma inboxP x s : InvP s -> InvP (set_inbox x s).
+Proof. intros [H1 H2 H3 H4 H5 H6 H7]. constructor; cb; assumption. Qed.
+Lemma inboxA x s : InvA s -> InvA (set_inbox x s).
+Proof. intros [H1 H2 H3 H4 H5]. constructor; cb; assumption. Qed.
+Lemma inboxT x s : InvT s -> InvT (set_inbox x s).
+Proof. intros [H1 H2 H3 H4]. constructor; cb; assumption. Qed.
+Lemma inboxL x s : InvL s -> InvL (set_inbox x s).
+Proof. intros [H1 H2 H3]. constructor; cb; assumption. Qed.
+Lemma inboxR x s : InvR s -> InvR (set_inbox x s).
+Proof. intros [H1]. constructor; cb; assumption. Qed.
+Lemma inboxAll x s : InvAll s -> InvAll (set_inbox x s).
+Proof. intros [H1 H2 H3 H4]. constructor; [apply inboxP|apply inboxA|apply inboxT|apply inboxL]; auto. Qed.
+
+Record WInv (w : world) : Prop := {
+  w_a : InvAll (wa w); w_b : InvAll (wb w); w_ra : InvR (wa w); w_rb : InvR (wb w);
+  w_ab : processed (wb w) ++ inbox (wb w) = out (wa w);
+  w_ba : processed (wa w) ++ inbox (wa w) = out (wb w) }.
+
+Lemma wstepI w x : WInv w -> WInv (wstep w x).
+Proof.
+  intros [Ha Hb Ra Rb Hab Hba]. destruct x as [[|] t]; unfold wstep; cbn [fst snd].
+  - destruct (step_io (wa w) t) as [[d Hd] Hio]. constructor; cbn [wa wb].
+    + apply stepAll; auto.
+    + apply inboxAll; auto.
+    + apply stepR; auto.
+    + apply inboxR; auto.
+    + cb. rewrite (newout_app _ _ _ Hd), app_assoc, Hab, Hd. reflexivity.
+    + cb. rewrite Hio. exact Hba.
+  - destruct (step_io (wb w) t) as [[d Hd] Hio]. constructor; cbn [wa wb].
+    + apply inboxAll; auto.
+    + apply stepAll; auto.
+    + apply inboxR; auto.
+    + apply stepR; auto.
+    + cb. rewrite Hio. exact Hab.
+    + cb. rewrite (newout_app _ _ _ Hd), app_assoc, Hba, Hd. reflexivity.
+Qed.
+Lemma winitI cba cbb na nb sa sb ua ub : WInv (winit cba cbb na nb sa sb ua ub).
+Proof. constructor; cbn; try apply initAll; try apply initR; reflexivity. Qed.
+Lemma wrunI sched w : WInv w -> WInv (wrun sched w).
+Proof. revert w; induction sched as [|x l IH]; simpl; intros w H; auto. apply IH, wstepI, H. Qed.
+
+(* a Close() on end A that finds no callback in process and wins its CAS reaches the peer: once B's event
+   loop has drained its inbox, B's stream has left `opened` *)
+Theorem propagates cba cbb na nb sa sb ua ub sched :
+  let w := wrun sched (winit cba cbb na nb sa sb ua ub) in
+  khalf (wa w) = false -> casfail (wa w) = false -> quiesc (wa w) -> close_returned (wa w) ->
+  inbox (wb w) = [] -> epc (wb w) = EIdle ->
+  st (wb w) <> c_streamOpened /\ flush_res (wb w) = RErrStreamClosed /\ read_res (wb w) <> RBlocked.
+Proof.
+  intros w Hk Hc Hq Hr Hin He.
+  pose proof (wrunI sched _ (winitI cba cbb na nb sa sb ua ub)) as HW. fold w in HW.
+  destruct HW as [Ha Hb Ra Rb Hab Hba].
+  assert (Hst : st (wb w) <> c_streamOpened).
+  { pose proof Ha as Ha0. destruct Ha as [_ [_ [An1 An2] _ _ Asent] [_ _ Aret2 _] _].
+    destruct Hb as [_ [Bacc [Bn1 Bn2] _ _ Bsent] [_ _ _ Bpeer] _].
+    destruct Ra as [Ra].
+    (* what A knows at closed quiescence *)
+    assert (HA : (nremote (wa w) = 1 /\ ncl (out (wa w)) = 0) \/ (nlocal (wa w) = 1 /\ ncl (out (wa w)) = 1)).
+    { destruct (partial_inv (wa w) Ha0 Hk Hc Hq Hr) as [_ [_ [_ [_ [_ H]]]]]. exact H. }
+    destruct HA as [[Hrem _]|[_ Hsent]].
+    - (* A was told by B: B passed its OnLocalClose site, so B is not open *)
+      destruct Hq as [Qe _]. rewrite Qe in Ra. cbn [e_halfn e_half] in Ra.
+      assert (Hp : ncl (processed (wa w)) >= 1) by lia.
+      assert (Ho : ncl (out (wb w)) >= 1).
+      { rewrite <- Hba, ncl_app. pose proof (ncl_nonneg (inbox (wa w))). lia. }
+      czpos (wb w). intros E. rewrite E in Bacc. cbn in Bacc. uc. cbn in Bacc. lia.
+    - (* A told B and B has handled it *)
+      rewrite Hin, app_nil_r in Hab. rewrite <- Hab in Hsent.
+      destruct (Bpeer ltac:(lia)) as [H|H]; auto. rewrite He in H. simpl in H. lia. }
+  split; [auto|split; [apply flush_closed|apply read_not_blocked]]; auto.
 Qed.
